@@ -4,14 +4,15 @@ import vf
 LEVEL = "exploration"
 LEVEL_TEXT = ("RtpPack.tla states the contract of the packets the server generates for a unit (payload <= M, consecutive sequence "
               "numbers, timestamp = unit timestamp + one offset fixed per format, depacketized payload = delivered payload); TLC "
-              "enumerates codec x entry branch (non-RTP publisher, forced remux, oversized incoming packets) x M in {200,1440,1460} (thorough: seven values from 100 to 8000) "
+              "enumerates codec x entry branch (non-RTP publisher, forced remux, oversized incoming packets) x M in {200,1440,1460} (thorough: seven values from 100 to 1460) "
               "x sequences of payload-size classes around M; every run is executed on a real Stream/SubStream through "
               "subStreamFormat.writeUnitInner / newRTPEncoder, the packets are depacketized with newRTPDecoder and TLC judges "
               "the observed packets")
 LEVEL_NOTE = ("contract of the packets only (packetization bytes are gortsplib's); 12 codecs (not MJPEG, MPEG-1 audio/video, "
               "MPEG-4 audio LATM, FLAC); for sample-based audio and audio units with several frames the timestamp formula covers "
               "the first packet of the unit only (later packets must advance by RTP's rules); AC-3 sizes are the table sizes "
-              "closest to the class")
+              "closest to the class; element counts and sizes stay within what the depacketizer accepts (10 OBUs, 21 NAL units, "
+              "access units <= 5120 bytes)")
 
 
 def run(ctx):
